@@ -7,6 +7,8 @@ calls of module-level single-return helpers are replaced by their body.
 Nothing is executed."""
 from __future__ import annotations
 
+from sa.model import clone as _clone
+
 import ast
 import copy
 
@@ -64,7 +66,7 @@ def returned_on(ctx, fn: FunctionInfo, env: dict) -> list[ast.AST] | str:
                     len(defs.get(node.id, [])) == 1 and \
                     defs[node.id][0] is not None and Sub.depth < 8:
                 Sub.depth += 1
-                out = self.visit(copy.deepcopy(defs[node.id][0]))
+                out = self.visit(_clone(defs[node.id][0]))
                 Sub.depth -= 1
                 return out
             return node
@@ -74,7 +76,7 @@ def returned_on(ctx, fn: FunctionInfo, env: dict) -> list[ast.AST] | str:
         if r.ast.value is None:
             out.append(ast.Constant(value=None))
             continue
-        e = Sub().visit(copy.deepcopy(r.ast.value))
+        e = Sub().visit(_clone(r.ast.value))
         e = simplify(ctx, fn, e)
         out.append(ast.fix_missing_locations(e))
     return out
@@ -106,10 +108,10 @@ def simplify(ctx, fn: FunctionInfo, e: ast.AST, depth: int = 4) -> ast.AST:
                         class P(ast.NodeTransformer):
 
                             def visit_Name(self, n):
-                                return copy.deepcopy(m[n.id]) if n.id in m \
+                                return _clone(m[n.id]) if n.id in m \
                                     else n
 
-                        return simplify(ctx, fn, P().visit(copy.deepcopy(
+                        return simplify(ctx, fn, P().visit(_clone(
                             body[0].value)), depth - 1)
             return node
 
